@@ -415,12 +415,13 @@ def r105(ctx, prog, B):
         if good:
             a = apps(oks[0][0])
             names = [n for n, _ in a]
-            good = names[:1] == [IT + 'from_usize'] and ('std::string::String::len', (SYM('s'),)) in a and not any('chars' in n or 'count' in n for n in names)
+            # String::len and str::len are the same number (bytes); refs and derefs are transparent in the domain
+            good = names[:1] == [IT + 'from_usize'] and any((nm_, (SYM('s'),)) in a for nm_ in ('std::string::String::len', 'core::str::<impl str>::len')) and not any('chars' in n or 'count' in n for n in names)
         ctx.check(good, 'R10.5', 'len[String]', 'unit', 'len of a string is String::len (bytes) converted with from_usize (found %s)' % strs)
         ps = B.call('len', B.V('Tuple', SYM('t')))
         strs = [fmt(p[0]) for p in (ps or [])]
         oks = [p for p in (ps or []) if is_adt(p[0], 'result::Result', 'Ok')]
-        good = len(oks) == 1 and any(n.endswith('Vec::<T, A>::len') and a == (SYM('t'),) for n, a in apps(oks[0][0]))
+        good = len(oks) == 1 and any((n.endswith('Vec::<T, A>::len') or n.endswith('slice::<impl [T]>::len')) and a == (SYM('t'),) for n, a in apps(oks[0][0]))
         ctx.check(good, 'R10.5', 'len[Tuple]', 'tuple-len', 'len of a tuple is its element count (found %s)' % strs)
     if 'str::substring' in B.closures:
         ps = B.call('str::substring', B.tuple([B.V('String', 's'), B.V('Int', 'from')]), depth=3)
@@ -500,17 +501,53 @@ def r107(ctx, prog, B):
             ya, yb = B.V(ta, 'y1'), B.V(tb, 'y2')
             ps = B.call('contains_any', B.tuple([B.V('Tuple', SYM('t')), B.tuple([ya, yb])]))
             n += 1
-            good = ps is not None and len(ps) >= 2
+            # the two membership tests are boolean atoms; for each of their four joint values exactly one path is consistent with it and
+            # returns a boolean expression of the atoms (a constant on a branching path, `c1 | c2` on a straight-line one) whose value is
+            # c1 or c2
+            atoms = {(SYM('t'), ya): 0, (SYM('t'), yb): 1}
+
+            class _Unk(Exception):
+                pass
+
+            def evalb(term, asg):
+                if term[0] == 'c' and isinstance(term[1], (bool, int)):
+                    return bool(term[1])
+                if term[0] == 'app' and term[1].endswith(SLICE_CONTAINS) and tuple(term[2]) in atoms:
+                    return asg[atoms[tuple(term[2])]]
+                if term[0] == 'app' and term[1].startswith('binop:') and len(term[2]) == 2:
+                    x, y = evalb(term[2][0], asg), evalb(term[2][1], asg)
+                    op_ = term[1].split(':')[1]
+                    if op_ in ('BitOr', 'BitAnd', 'BitXor', 'Eq', 'Ne'):
+                        return {'BitOr': x or y, 'BitAnd': x and y, 'BitXor': x != y, 'Eq': x == y, 'Ne': x != y}[op_]
+                if term[0] == 'app' and term[1].startswith('unop:Not') and len(term[2]) == 1:
+                    return not evalb(term[2][0], asg)
+                raise _Unk(fmt(term)[:80])
+            good = ps is not None and len(ps) >= 1
             seen = set()
-            for ret, eff in (ps or []):
-                tests = [(v, tk) for v, tk in branches_of(eff) if v[0] == 'app' and v[1].endswith(SLICE_CONTAINS)]
-                good = good and all(v[2][0] == SYM('t') and v[2][1] in (ya, yb) for v, tk in tests)
-                hit = any(tk != C(0) for v, tk in tests)
-                good = good and ret == OK(B.V2('Boolean', C(hit)))
-                # every element that could still decide the result was tested
-                tested = [v[2][1] for v, tk in tests]
-                good = good and (hit or tested == [ya, yb]) and tested == [ya, yb][:len(tested)]
-                seen.add(hit)
+            for c1 in (False, True):
+                for c2 in (False, True):
+                    asg = (c1, c2)
+                    cons = []
+                    for ret, eff in (ps or []):
+                        okp = True
+                        for v, tk in branches_of(eff):
+                            if v[0] == 'app' and v[1].endswith(SLICE_CONTAINS):
+                                if tuple(v[2]) not in atoms:
+                                    good = False
+                                elif (tk != C(0)) != asg[atoms[tuple(v[2])]]:
+                                    okp = False
+                        if okp:
+                            cons.append(ret)
+                    if len(cons) != 1 or not is_adt(cons[0], 'result::Result', 'Ok'):
+                        good = False
+                        continue
+                    val = cons[0][4][0]
+                    try:
+                        got_b = evalb(val[4][0], asg) if (val[0] == 'adt' and val[3] == 'Boolean' and val[4]) else None
+                    except _Unk:
+                        got_b = None
+                    good = good and got_b is not None and got_b == (c1 or c2)
+                    seen.add(c1 or c2)
             ctx.check(good and seen == {True, False}, 'R10.7', 'contains_any[Tuple,(%s,%s)]' % (ta, tb), 'any', 'contains_any(t, (y1, y2)) is true exactly when some t.contains(yi) is true, testing the elements in order (found %s)' % sorted({fmt(p[0])[:80] for p in (ps or [])}))
         for bad_ty in ('Tuple', 'Empty'):
             for pos in (0, 1):
